@@ -18,4 +18,21 @@ theorem C07_src_bounds_control (x l r : List Int) (hl : l.length = x.length) (hr
 theorem C07_src_clamp_agrees (l r x : Int) : ((clampI l r x : Int) : Rat) = DE.clamp (l : Rat) (r : Rat) (x : Rat) :=
   src_clamp_agrees l r x
 
+/-- C07 on the translated `bounds_control`: every coordinate of the result lies in its interval,
+    coordinates already inside are unchanged, and no array is read out of range -/
+theorem C07_src_bounds_control_in_box (x l r : List Int) (hl : l.length = x.length) (hr : r.length = x.length)
+    (hbox : ∀ i, i < x.length → l.getD i 0 ≤ r.getD i 0) :
+    ∃ y, bounds_control x l r = some y ∧ y.length = x.length ∧
+      ∀ i, i < x.length → l.getD i 0 ≤ y.getD i 0 ∧ y.getD i 0 ≤ r.getD i 0 ∧
+        (l.getD i 0 ≤ x.getD i 0 → x.getD i 0 ≤ r.getD i 0 → y.getD i 0 = x.getD i 0) := by
+  refine ⟨_, C07_src_bounds_control x l r hl hr, by simp, ?_⟩
+  intro i hi
+  have hb := hbox i hi
+  have hget : ((List.range x.length).map fun i => clampI (l.getD i 0) (r.getD i 0) (x.getD i 0)).getD i 0 =
+      clampI (l.getD i 0) (r.getD i 0) (x.getD i 0) := by
+    simp [List.getD_eq_getElem?_getD, hi]
+  rw [hget]
+  unfold clampI
+  refine ⟨?_, ?_, ?_⟩ <;> split <;> (try split) <;> omega
+
 end TFV.SrcTie
